@@ -672,6 +672,7 @@ func boundTypeParams(p *Package, fn *Element, sig *types.Signature, args []*Elem
 				}
 				break
 			}
+			p.cb.ensureLoaded(t.typ) // a delay-loaded type must be complete before it is used as type argument (as for X[T])
 			targs[i] = t.typ
 			m++
 		}
